@@ -29,7 +29,7 @@ type Engine struct {
 	renamed      map[string]string
 	renamedNotes []string
 	// package-level slices initialised from a literal of constants and never written afterwards
-	constTables map[string][]*ssa.Const
+	constTables map[string][]ssa.Value // element: *ssa.Const, or the load (*ssa.UnOp) of a package-level sentinel
 	strIDs      map[string]int
 	inferred    map[string]string // fields of shared structs without a declaration: key -> inferred class
 	strs        []string
@@ -509,6 +509,53 @@ func (e *Engine) inferFieldClasses() {
 				hasMu = true
 			}
 		}
+		// a renamed field keeps its declaration: a declared name that the struct no longer has and an undeclared
+		// field of the same type, when that pairing is unique
+		have := map[string]bool{}
+		for i := 0; i < st.NumFields(); i++ {
+			have[st.Field(i).Name()] = true
+		}
+		var stale []*FieldDecl
+		for k, fd := range e.cs.Fields {
+			if strings.HasPrefix(k, sname+".") && !strings.Contains(k[len(sname)+1:], ".") && !have[k[len(sname)+1:]] && fd.Class != "ghost" {
+				stale = append(stale, fd)
+			}
+		}
+		kindOf := func(ts string) string {
+			switch {
+			case strings.HasPrefix(ts, "sync/atomic."):
+				return "atomic"
+			case strings.HasPrefix(ts, "sync."):
+				return "sync"
+			}
+			return "data"
+		}
+		taken := map[string]bool{}
+		for _, fd := range stale {
+			want := "data"
+			if fd.Class == "sync" || fd.Class == "atomic" {
+				want = fd.Class
+			}
+			var match *types.Var
+			n := 0
+			for i := 0; i < st.NumFields(); i++ {
+				f := st.Field(i)
+				if _, declared := e.cs.Fields[sname+"."+f.Name()]; declared || taken[f.Name()] {
+					continue
+				}
+				if kindOf(types.TypeString(f.Type(), nil)) == want {
+					match = f
+					n++
+				}
+			}
+			if n == 1 {
+				taken[match.Name()] = true
+				cp := *fd
+				cp.Key = sname + "." + match.Name()
+				e.cs.Fields[cp.Key] = &cp
+				e.inferred[cp.Key] = "renamed from " + fd.Key
+			}
+		}
 		for i := 0; i < st.NumFields(); i++ {
 			f := st.Field(i)
 			key := sname + "." + f.Name()
@@ -636,12 +683,12 @@ func sharesBackingStore(v *ssa.UnOp) bool {
 // into a fresh array, slices it and stores the slice into the global; no other instruction of the package writes the
 // global or takes its address. Such a table is read as the constant slice it is (loops over it are unrolled).
 func (e *Engine) findConstTables() {
-	e.constTables = map[string][]*ssa.Const{}
+	e.constTables = map[string][]ssa.Value{}
 	initFn := e.pkg.Func("init")
 	if initFn == nil {
 		return
 	}
-	elems := map[*ssa.Alloc]map[int64]*ssa.Const{}
+	elems := map[*ssa.Alloc]map[int64]ssa.Value{}
 	size := map[*ssa.Alloc]int64{}
 	cand := map[*ssa.Global]*ssa.Alloc{}
 	bad := map[*ssa.Global]bool{}
@@ -654,11 +701,21 @@ func (e *Engine) findConstTables() {
 			if ia, ok := st.Addr.(*ssa.IndexAddr); ok {
 				if al, ok := ia.X.(*ssa.Alloc); ok {
 					if ix, ok := ia.Index.(*ssa.Const); ok && ix.Value != nil {
+						// a constant, or the value of a package-level variable of interface or pointer type (an error
+						// sentinel: such variables are never reassigned, obligation sentinel.constant)
+						var ev ssa.Value
 						if c, ok := st.Val.(*ssa.Const); ok {
-							if elems[al] == nil {
-								elems[al] = map[int64]*ssa.Const{}
+							ev = c
+						} else if ld, ok := st.Val.(*ssa.UnOp); ok && ld.Op == token.MUL {
+							if g, ok := ld.X.(*ssa.Global); ok && g.Pkg == e.pkg && (isInterface(ld.Type()) || isPointer(ld.Type())) {
+								ev = ld
 							}
-							elems[al][ix.Int64()] = c
+						}
+						if ev != nil {
+							if elems[al] == nil {
+								elems[al] = map[int64]ssa.Value{}
+							}
+							elems[al][ix.Int64()] = ev
 							continue
 						}
 					}
@@ -705,7 +762,7 @@ func (e *Engine) findConstTables() {
 		if bad[g] || size[al] < 0 || int64(len(elems[al])) != size[al] {
 			continue
 		}
-		var cs []*ssa.Const
+		var cs []ssa.Value
 		for i := int64(0); i < size[al]; i++ {
 			cs = append(cs, elems[al][i])
 		}
